@@ -37,6 +37,8 @@ PATTERNS = [
     ("Capture('a', 'n') + Backreference('n')", ''), ("Capture(AnyFrom('a', 'b')) + Backreference(1)", ''),
     ("Optional(Capture('a', 'n')) + Conditional('n', 'b', 'a')", ''), ("Group('a', True)", 'A'), ("Pregex()", ''),
     ("Indefinite(Either('a', 'b')) + 'b'", ''), ("Either('a', Pregex('b') + 'a')", ''),
+    ("Pregex(\"\\\\'\")", "\\'"), ("Pregex('\\\\\"')", '\\"'), ("Pregex(\"\\\\'\" + '\"')", "\\'\""), ("AnyFrom(Backslash(), \"'\")", "\\'"),
+    ("Pregex('\\\\n')", '\\n'), ("Pregex('\\\\') + Newline()", '\\'), ("Pregex('a\\\\\\\\' + \"'\")", "\\'"),
 ]
 
 MORE_PATTERNS = [
@@ -533,8 +535,12 @@ def _task14(arg):
     td = tempfile.mkdtemp(prefix='c14_')
     try:
         for expr in exprs:
-            p = build(expr)
-            cre = re.compile(str(p), FLAGS)
+            try:
+                p = build(expr)
+                cre = re.compile(str(p), FLAGS)
+            except Exception as e:  # noqa: BLE001
+                viol.append(V('C14|%s|unbuildable' % expr, f"{expr}: {e!r}", 'import re\nre.compile(str(%s), 24)' % expr))
+                continue
             bad = set()
             for i, content in enumerate(contents):
                 path = os.path.join(td, 'f%d.txt' % i)
